@@ -144,7 +144,8 @@ Definition t_get (kd : mkind) (k : bytes) (c : imap item) : option item :=
   match kd with
   | KTable => flt (im_get k c)                  (* Table::get: filters Item::None *)
   | KInline => obind (im_get k c) as_value      (* InlineTable::get: `.and_then(|value| value.as_value())` *)
-  | _ => im_get k c                             (* TableLike for InlineTable: `self.items.get(key)` — NO filter *)
+  | _ => flt (im_get k c)                       (* TableLike for InlineTable::get{,_mut}:
+                                                   `self.items.get(key).filter(|value| !value.is_none())` *)
   end.
 (* contains_key *)
 Definition t_ck (kd : mkind) (k : bytes) (c : imap item) : bool :=
@@ -158,7 +159,7 @@ Definition t_iter (kd : mkind) (c : imap item) : imap item :=
   | KTable => visible c       (* Table::iter: `.filter(|(_, value)| !value.is_none())` *)
   | KInline => visible c      (* InlineTable::iter: same filter, then `as_value().unwrap()`
                                  (cannot fail: only values are ever stored through the modelled calls) *)
-  | _ => c                    (* TableLike for InlineTable::iter: `self.items.iter().map(..)` — NO filter *)
+  | _ => visible c            (* TableLike for InlineTable::iter: `.filter(|(_, value)| !value.is_none())` *)
   end.
 (* len: Table::len and InlineTable::len are `self.iter().count()`; the TableLike default is
    `self.iter().filter(|&(_, v)| !v.is_none()).count()` *)
@@ -204,7 +205,7 @@ Definition tstep (kd : mkind) (c : imap item) (o : mop) : imap item * out :=
     (c, OList (match kd with
                | KTable => visible c          (* Table::iter_mut: `!value.is_none()` *)
                | KInline => only_values c     (* InlineTable::iter_mut: `value.is_value()` *)
-               | _ => c                       (* TableLike for InlineTable::iter_mut: no filter *)
+               | _ => visible c               (* TableLike for InlineTable::iter_mut: `!value.is_none()` *)
                end))
   | MKeys | MVals => (c, ONA)
   | MClr => ([], OUnit)
@@ -298,19 +299,16 @@ Definition tsens (kd : mkind) (c : imap item) (o : mop) : bool :=
   match o with
   | MIns k _ | MInsF k _ | MKey k | MEnt k | MEoi k _ | MEins k _ | MErm k | MGoi k _ | MISet k _ | MIoi k _ => ph k c
   | MRm k | MRmE k => match kd with KTable => ph k c | _ => false end
-  | MGet k | MGetM k => match kd with KInlineTL => ph k c | _ => false end
-  | MIter | MIterM => match kd with KInlineTL => anyph c | _ => false end
   | MInto => match kd with KTable => anyph c | _ => false end
   | MExt l => existsb (fun kv => ph (fst kv) c) l
   | _ => false
   end.
 
-(* first sensitive call of a history: Some (Some o) = the call o; Some None = only the final
-   observation (TableLike iter/get on a state that still holds a placeholder); None = not in the class *)
-Fixpoint first_sens (kd : mkind) (c : imap item) (h : list mop) : option (option mop) :=
+(* first sensitive call of a history (None = the history is not in the class) *)
+Fixpoint first_sens (kd : mkind) (c : imap item) (h : list mop) : option mop :=
   match h with
-  | [] => match kd with KInlineTL => if anyph c then Some None else None | _ => None end
-  | o :: h' => if tsens kd c o then Some (Some o) else first_sens kd (fst (tstep kd c o)) h'
+  | [] => None
+  | o :: h' => if tsens kd c o then Some o else first_sens kd (fst (tstep kd c o)) h'
   end.
 Definition touches_placeholder (kd : mkind) (h : list mop) : bool := is_some (first_sens kd [] h).
 
